@@ -67,7 +67,7 @@ def run(ctx):
     thorough = ctx.tier == "thorough"
     builds = [("default", ""), ("noasm", "noasm")] + ([("safe", "safe")] if thorough else [])
     bins = {n: ctx.build(t) for n, t in builds}
-    workers = 8
+    workers = int(os.environ.get("VERIF_TLC_WORKERS", "4"))
 
     # ---- R1: storage theorems -------------------------------------------------
     ctx.tlc("blas/BlasAddrCheck.tla", "blas/BlasAddrCheck.cfg", name="R1 storage maps: range, tightness, injectivity, inverses",
@@ -76,10 +76,10 @@ def run(ctx):
     for name, cx, fams in GROUPS:
         ctx.tlc("blas/BlasGen.tla", "blas/BlasGen.cfg", workers=workers, timeout=1500,
                 name="R1 semantics theorems (footprint, poison independence, exactness, solves) " + name,
-                subst=base_subst(ctx, cx, fams, 400 if thorough else 60, checks=True))
+                subst=base_subst(ctx, cx, fams, 250 if thorough else 60, checks=True))
 
     # ---- R2: generated calls replayed into gonum ------------------------------
-    target = {"L1": 6000, "L2": 5000, "L3": 2500} if thorough else {"L1": 1000, "L2": 1000, "L3": 600}
+    target = {"L1": 4000, "L2": 2500, "L3": 1200} if thorough else {"L1": 800, "L2": 600, "L3": 400}
     for name, cx, fams in GROUPS:
         cases = ctx.gen("blas/BlasGen.tla", "blas/BlasGen.cfg", workers=workers, name="R2 gen " + name,
                         subst=base_subst(ctx, cx, fams, target[name[:2]]))
@@ -87,8 +87,10 @@ def run(ctx):
             ctx.replay(bins[bn], "blas", cases, ["build=" + bn], name="R2 replay %s [%s]" % (name, bn))
     # block-edge and parallel-threshold shapes (64-element blocks, >= 4 blocks => parallel gemm)
     for name, cx, fams, lvl in BIG:
+        if lvl == 1 and not thorough:
+            fams = fams[:1] + fams[2:3] + fams[4:]      # quick: gemm, syrk/herk, trmm
         dims = [63, 64, 65, 129] if thorough else [63, 64, 65]
-        tg = (40 if lvl == 2 else 12) if thorough else (12 if lvl == 2 else 2)
+        tg = (40 if lvl == 2 else 8) if thorough else (10 if lvl == 2 else 1)
         cases = ctx.gen("blas/BlasGen.tla", "blas/BlasGen.cfg", workers=workers, name="R2 gen " + name, timeout=2400,
                         subst=base_subst(ctx, cx, fams, tg, DIMS=tset(dims), DIMS3=tset(dims), RAY="{}", INCMAX=2))
         for bn, _ in builds:
